@@ -3,6 +3,7 @@ import Np.Props.C03
 import Np.Props.C04
 import Np.Props.C06
 import Np.Props.C16
+import Np.Proofs.ExprPow
 /-! C15 — option settings never change the mathematical result: corollaries of the refinement theorems, which are
 all stated for every value of the retain flags with a right-hand side that does not mention any option -/
 namespace Np.Props.C15
@@ -47,4 +48,13 @@ example : ((add true true ({ names := [0, 1], terms := [([1, 1], (1 : Int)), ([0
     (add false false ({ names := [0, 1], terms := [([1, 1], (1 : Int)), ([0, 0], 2)] } : Poly Int)
       { names := [0, 1], terms := [([1, 1], -1)] }).terms)
     = ([([0, 0], 2), ([1, 1], 0)], [([0], 2)]) := by decide
+/-- **every program** (any depth, `+ - neg pos * **k **array`) gives the same shape and the same elements under any two
+settings of the retain flags -/
+theorem program_indep {R : Type} [CommRing R] [BEq R] [LawfulBEq R] (rc rn rc' rn' : Bool) (env : List (Arr R))
+    (henv : ∀ a ∈ env, a.WF) (t : Expr2) (r r' : Arr R) (h : evalModel2 rc rn env t = .ok r)
+    (h' : evalModel2 rc' rn' env t = .ok r') :
+    r.shape = r'.shape ∧ ∀ i (hi : i < Shape.size r.shape) (hi' : i < Shape.size r'.shape),
+      r.elem ⟨i, hi⟩ = r'.elem ⟨i, hi'⟩ :=
+  expr2_den_unique rc rn rc' rn' env henv t r r' h h'
+
 end Np.Props.C15
